@@ -1,0 +1,236 @@
+//! Verification hooks, compiled only with the `verif-hooks` cargo feature
+//! (off by default).
+//!
+//! Everything in this file is additive. It exposes a few private pieces of the
+//! crate (the wire codec, the handshake + peer registration path, the fair
+//! queue) to an external runtime-monitoring harness, and lets that harness
+//! observe the tasks the library spawns. The only place in the library that
+//! calls into this module is `async_rt::task::spawn` (one cfg-guarded line).
+
+use crate::codec::{FramedIo, Message, ZmqCodec, ZmqCommand, ZmqGreeting};
+use crate::fair_queue::{FairQueue, QueueInner};
+use crate::util::PeerIdentity;
+use crate::{MultiPeerBackend, SocketType, ZmqMessage, ZmqResult};
+
+use asynchronous_codec::{Decoder, Encoder};
+use bytes::{Bytes, BytesMut};
+use futures::{AsyncRead, AsyncWrite, Stream};
+use parking_lot::Mutex;
+
+use std::future::Future;
+use std::hash::Hash;
+use std::pin::Pin;
+use std::sync::atomic::{AtomicU64, Ordering};
+use std::sync::{Arc, OnceLock};
+use std::task::{Context, Poll, Waker};
+
+/// H1: the private wire codec.
+pub mod codec {
+    use super::*;
+
+    /// Public mirror of the crate-private `codec::Message`.
+    #[derive(Debug, Clone)]
+    pub enum Item {
+        Greeting {
+            version: (u8, u8),
+            mechanism: String,
+            as_server: bool,
+        },
+        Command {
+            name: String,
+            props: Vec<(String, Vec<u8>)>,
+        },
+        Message(ZmqMessage),
+    }
+
+    pub struct Codec(ZmqCodec);
+
+    impl Default for Codec {
+        fn default() -> Self {
+            Self::new()
+        }
+    }
+
+    impl Codec {
+        pub fn new() -> Self {
+            Self(ZmqCodec::new())
+        }
+
+        /// One call of the production `Decoder::decode`.
+        pub fn decode(&mut self, src: &mut BytesMut) -> Result<Option<Item>, String> {
+            match self.0.decode(src) {
+                Ok(None) => Ok(None),
+                Ok(Some(Message::Greeting(g))) => Ok(Some(Item::Greeting {
+                    version: g.version,
+                    mechanism: g.mechanism.as_str().to_string(),
+                    as_server: g.as_server,
+                })),
+                Ok(Some(Message::Command(c))) => {
+                    let mut props: Vec<(String, Vec<u8>)> = c
+                        .properties
+                        .iter()
+                        .map(|(k, v)| (k.clone(), v.to_vec()))
+                        .collect();
+                    props.sort();
+                    Ok(Some(Item::Command {
+                        name: c.name.as_str().to_string(),
+                        props,
+                    }))
+                }
+                Ok(Some(Message::Message(m))) => Ok(Some(Item::Message(m))),
+                Err(e) => Err(e.to_string()),
+            }
+        }
+
+        pub fn encode_message(&mut self, m: ZmqMessage, dst: &mut BytesMut) -> Result<(), String> {
+            self.0
+                .encode(Message::Message(m), dst)
+                .map_err(|e| e.to_string())
+        }
+
+        pub fn encode_greeting(&mut self, dst: &mut BytesMut) -> Result<(), String> {
+            self.0
+                .encode(Message::Greeting(ZmqGreeting::default()), dst)
+                .map_err(|e| e.to_string())
+        }
+
+        pub fn encode_ready(
+            &mut self,
+            socket_type: SocketType,
+            identity: Option<Bytes>,
+            dst: &mut BytesMut,
+        ) -> Result<(), String> {
+            let mut ready = ZmqCommand::ready(socket_type);
+            if let Some(id) = identity {
+                ready.add_prop("Identity".to_string(), id);
+            }
+            self.0
+                .encode(Message::Command(ready), dst)
+                .map_err(|e| e.to_string())
+        }
+
+        /// Resumable decoder state, for "same state whatever the segmentation".
+        pub fn debug_state(&self) -> String {
+            format!("{:?}", self.0)
+        }
+    }
+}
+
+/// H2: run the production handshake + registration path (the function that
+/// `connect()` and the accept callback call) over harness-supplied halves.
+pub async fn attach<R, W>(
+    backend: Arc<dyn MultiPeerBackend>,
+    reader: R,
+    writer: W,
+) -> ZmqResult<PeerIdentity>
+where
+    R: AsyncRead + Unpin + Send + Sync + 'static,
+    W: AsyncWrite + Unpin + Send + Sync + 'static,
+{
+    let io = FramedIo::new(Box::new(reader), Box::new(writer));
+    crate::util::peer_connected(io, backend).await
+}
+
+/// H3: the private fair queue.
+pub struct FairQueueProbe<S, K: Clone>(FairQueue<S, K>);
+
+pub struct FairQueueHandle<S, K: Clone>(Arc<Mutex<QueueInner<S, K>>>);
+
+impl<S, K: Clone> Clone for FairQueueHandle<S, K> {
+    fn clone(&self) -> Self {
+        Self(self.0.clone())
+    }
+}
+
+impl<S, K: Clone + Eq + Hash> FairQueueHandle<S, K> {
+    pub fn insert(&self, k: K, s: S) {
+        self.0.lock().insert(k, s);
+    }
+
+    pub fn remove(&self, k: &K) {
+        self.0.lock().remove(k);
+    }
+}
+
+impl<S, K: Clone> FairQueueProbe<S, K> {
+    pub fn new(block_on_no_clients: bool) -> Self {
+        Self(FairQueue::new(block_on_no_clients))
+    }
+
+    pub fn handle(&self) -> FairQueueHandle<S, K> {
+        FairQueueHandle(self.0.inner())
+    }
+}
+
+impl<S, T, K> FairQueueProbe<S, K>
+where
+    T: Send,
+    S: Stream<Item = T> + Send + 'static,
+    K: Eq + Hash + Unpin + Clone + Send + Sync + 'static,
+{
+    pub fn poll_next(&mut self, cx: &mut Context<'_>) -> Poll<Option<(K, T)>> {
+        Pin::new(&mut self.0).poll_next(cx)
+    }
+}
+
+/// H4: observation (and optional gating) of tasks the library spawns.
+pub trait TaskObserver: Send + Sync {
+    fn on_spawn(&self, _id: u64) {}
+    /// May the task be polled now? Returning `false` parks the task; the
+    /// observer must keep `waker` and wake it when the gate opens.
+    fn gate(&self, _id: u64, _waker: &Waker) -> bool {
+        true
+    }
+    fn after_poll(&self, _id: u64, _ready: bool) {}
+    fn on_drop(&self, _id: u64) {}
+}
+
+static OBSERVER: OnceLock<Arc<dyn TaskObserver>> = OnceLock::new();
+static NEXT_TASK_ID: AtomicU64 = AtomicU64::new(1);
+
+/// Installs the process-wide observer. Only the first call has an effect.
+pub fn set_task_observer(observer: Arc<dyn TaskObserver>) {
+    let _ = OBSERVER.set(observer);
+}
+
+pub struct Instrumented<F> {
+    id: u64,
+    fut: Pin<Box<F>>,
+}
+
+impl<F: Future> Future for Instrumented<F> {
+    type Output = F::Output;
+
+    fn poll(mut self: Pin<&mut Self>, cx: &mut Context<'_>) -> Poll<Self::Output> {
+        let observer = OBSERVER.get();
+        if let Some(o) = observer {
+            if !o.gate(self.id, cx.waker()) {
+                return Poll::Pending;
+            }
+        }
+        let res = self.fut.as_mut().poll(cx);
+        if let Some(o) = observer {
+            o.after_poll(self.id, res.is_ready());
+        }
+        res
+    }
+}
+
+impl<F> Drop for Instrumented<F> {
+    fn drop(&mut self) {
+        if let Some(o) = OBSERVER.get() {
+            o.on_drop(self.id);
+        }
+    }
+}
+
+pub(crate) fn wrap_spawned<F: Future>(fut: F) -> Instrumented<F> {
+    let id = NEXT_TASK_ID.fetch_add(1, Ordering::Relaxed);
+    if let Some(o) = OBSERVER.get() {
+        o.on_spawn(id);
+    }
+    Instrumented {
+        id,
+        fut: Box::pin(fut),
+    }
+}
